@@ -239,6 +239,14 @@ func (lex *Lexer) emit(typ token.Type, text string) []*token.Token {
 }
 
 func (lex *Lexer) emitText(typ token.Type) []*token.Token {
+	if lex.scanner.Overflow() {
+		// The token outgrew the scanner's window.  The accept loops stop
+		// there just as they do at the end of a token, so without this test
+		// the lexer emitted the part that fit and read the remainder as the
+		// NEXT token: the tail of a 128KiB comment was parsed as code, a long
+		// symbol or number was split in two.
+		return lex.errorf("token exceeds maximum allowable size")
+	}
 	tok := lex.scanner.EmitToken(typ)
 	tok.PrecedingNewlines = lex.precedingNewlines
 	tok.PrecedingSpaces = lex.precedingSpaces
@@ -404,18 +412,22 @@ func trailingBackslashes(s string) int {
 }
 
 func (lex *Lexer) skipWhitespace() {
-	if lex.scanner.AcceptSeqSpace() > 0 {
+	lex.precedingNewlines = 0
+	lex.precedingSpaces = 0
+	// Whitespace is skipped a window at a time: a run longer than the
+	// scanner's window stops AcceptSeqSpace short, and treating that as the
+	// end of the run made the next token start on a space ("unexpected text
+	// starting with ' '"), so the amount of blank space between two
+	// expressions decided whether a file could be read.
+	for lex.scanner.AcceptSeqSpace() > 0 {
 		text := lex.scanner.Text()
-		lex.precedingNewlines = strings.Count(text, "\n")
-		if lex.precedingNewlines == 0 {
-			lex.precedingSpaces = len(text)
-		} else {
+		if n := strings.Count(text, "\n"); n > 0 {
+			lex.precedingNewlines += n
 			lex.precedingSpaces = 0
+		} else if lex.precedingNewlines == 0 {
+			lex.precedingSpaces += len(text)
 		}
 		lex.scanner.Ignore()
-	} else {
-		lex.precedingNewlines = 0
-		lex.precedingSpaces = 0
 	}
 }
 
